@@ -313,6 +313,7 @@ def op_plain(ex):
                 for ok in KINDS:
                     for od in ((0,) if ok == 'empty' else (2, 3)):
                         combos.append((tk, td, ok, od))
+        combos += [('owned', 2, 'owned', 4), ('owned', 4, 'owned', 2), ('owned', 3, 'owned', 5)]  # equal parity, different size
         for tk, td, ok, od in combos:
             def setup(w, tk=tk, td=td, ok=ok, od=od, label=label):
                 this = mk_vector(w, 'v', tk, td, 'T')
@@ -646,10 +647,20 @@ def op_expressions(ex, tier):
                             aliases.append('b')
                         if ak == 'ext':
                             aliases.append('buf(a)')
+                            if cats[0] == 'l':
+                                aliases.append('view(v)')
                         for tgt in [('obj',) + t for t in targets] + [('alias', x) for x in aliases]:
                             def setup(w, shape=shape, W=W, d=d, ak=ak, bk=bk, tgt=tgt):
                                 return setup_expr(ex, w, shape, W, d, ak, bk, tgt)
                             ex.explore('v %s %s' % (WSYM[W], label), U, fassign, setup, post_expr)
+        # resizing between dimensions of equal parity (2->4, 3->5 and back): the released block passes the alignment
+        # test of the other dimension's cache, so filing it under the wrong dimension becomes visible
+        fassign = db.one(U, 'squids::SU_vector::assignProxy<squids::detail::AssignWrapper, %s>' % pcls)
+        for d, td in ((4, 2), (5, 3), (2, 4)):
+            bk = 'owned' if two_vec(how) else None
+            def setup(w, shape=shape, d=d, td=td, bk=bk):
+                return setup_expr(ex, w, shape, 'AssignWrapper', d, 'owned', bk, ('obj', 'owned', td))
+            ex.explore('v = %s' % label, U, fassign, setup, post_expr)
         # construction from the expression
         fctor = db.one(U, 'squids::SU_vector::SU_vector<%s>' % pcls)
         for d in (2, 3):
@@ -675,6 +686,15 @@ def setup_expr(ex, w, shape, W, d, ak, bk, tgt):
             v = a
         elif tgt[1] == 'b':
             v = b
+        elif tgt[1] == 'view(v)':
+            # the target owns its block; operand a is a distinct, non-owning vector bound to that same block
+            v = mk_vector(w, 'v', 'owned', d, 'a')
+            for k in ('dim', 'size', 'components'):
+                a.value.fields[k].value = v.value.fields[k].value
+            a.value.fields['ptr_offset'].value = 0
+            a.value.fields['isinit'].value = 0
+            a.value.fields['isinit_d'].value = 1
+            live.append(('v', v))
         else:  # a second vector bound to a's user buffer
             o = Obj(SUV, None, 'v')
             for k in ('dim', 'size', 'components', 'ptr_offset', 'isinit', 'isinit_d'):
@@ -747,7 +767,7 @@ def post_expr(w, ctx, pre, out, live):
         c = ctx.get(n)
         if c is None or cat != 'l' or c is v:
             continue
-        if ctx['alias'] == 'buf(a)' and n == 'a':
+        if ctx['alias'] in ('buf(a)', 'view(v)') and n == 'a':  # a shares the target's storage: it changes with it
             continue
         if not same_snapshot(pre[n], snapshot(c)):
             res.append(('B.value', 'lvalue operand %s unchanged' % n, diff_snapshot(pre[n], snapshot(c))))
